@@ -4,7 +4,7 @@ from ._lib import lib_run
 
 
 def run(tier, replay=None):
-    cells = cxx.QUICK_CELLS if tier == "quick" else cxx.ALL_CELLS
+    cells = cxx.CODEC_CELLS if tier == "quick" else cxx.ALL_CELLS
     vs = []
     skipped = [c for c in cells if cxx.cell_miscompiles_is_constant_evaluated(c)]
     cells = [c for c in cells if c not in skipped]
